@@ -541,7 +541,7 @@ var zeroInitOK = map[string]bool{"sync": true, "sync/atomic": true, "runtime": t
 
 // individual globals of uninitialised packages that harnesses may pass around
 // as opaque zero values (they only reach stubbed functions)
-var zeroGlobalOK = map[string]bool{"github.com/prometheus/client_golang/prometheus.DefBuckets": true, "os.Interrupt": true, "os.Stdin": true, "os.Stdout": true, "os.Stderr": true}
+var zeroGlobalOK = map[string]bool{"net.DefaultResolver": true, "github.com/prometheus/client_golang/prometheus.DefBuckets": true, "os.Interrupt": true, "os.Stdin": true, "os.Stdout": true, "os.Stderr": true}
 
 func skipInit(path string) bool {
 	return neverInit[path] || strings.HasPrefix(path, "internal/") || strings.HasPrefix(path, "runtime/") ||
